@@ -117,6 +117,17 @@ func (e *Env) harness(msg string) {
 	fmt.Fprintln(os.Stderr, "HARNESS:", msg)
 }
 
+// OnlyDeadlines reports whether every recorded harness problem is a deadline that was hit (the cases concerned
+// are "not decided": the run is not exhaustive, but nothing is wrong with the harness or the tree).
+func (e *Env) OnlyDeadlines() bool {
+	for _, h := range e.Harness {
+		if !strings.Contains(h, "timed out") && !strings.Contains(h, "timeout") && !strings.Contains(h, "not decided") {
+			return false
+		}
+	}
+	return true
+}
+
 // HarnessMsg records a problem of the harness itself (never a violation).
 func (e *Env) HarnessMsg(msg string) { e.harness(msg) }
 
@@ -490,7 +501,13 @@ func (e *Env) CheckAgainstVariant(p Program, base Variant, others []Variant) {
 		return
 	}
 	defer os.RemoveAll(dir)
-	want, bres, _ := e.RunJS(dir, p, base)
+	want, bres, wscript := e.RunJS(dir, p, base)
+	if want.End == "timeout" {
+		// a deadline of the harness, not an outcome: once more with a deadline no load explains
+		if r2, err := e.Nodes.RunTimeout(jsx.Req{Script: wscript, Globals: p.Globals, FifoTimers: true, ContextScript: p.ContextScript}, 15*time.Minute); err == nil && r2.End != "timeout" {
+			want = ref.NormaliseJS(r2.Out, r2.End)
+		}
+	}
 	if want.End == "harness" || want.End == "timeout" {
 		e.harness("reference variant of " + p.Name + " did not run: " + want.End)
 		return
